@@ -2,4 +2,5 @@
 # MANIFEST.setup_cmd — offline build of the Lean library (models, drivers, theorems) from files on disk.
 set -e
 cd "$(dirname "$0")/lean"
-lake build 2>&1 | tail -n 5
+# shellcheck disable=SC2046
+lake build $(cat targets.txt) 2>&1 | tail -n 5
